@@ -412,6 +412,7 @@ class ShuffleExecutor(Executor):
 
     def __init__(self, seed: int, nthreads: int = 1, batch_wait: float = 0.002):
         self._rng = random.Random(seed)
+        self._max_workers = 64  # dask reads this: number of tasks it keeps submitted
         self._cv = threading.Condition()
         self._pending: list = []
         self._stop = False
